@@ -66,6 +66,11 @@ func (o admOutcome) String() string {
 
 const hookText = "not today"
 
+// the text the application's hook refuses a request with: its own words, different for different requests
+func hookTextFor(method, transport string) string {
+	return hookText + " (" + method + " " + transport + ")"
+}
+
 // admDecide is the reference: first failing check in the documented precedence.
 func admDecide(cfg admCfg, r admReq, transport string) admOutcome {
 	rej := func(status, code int, msg string) admOutcome {
@@ -110,7 +115,7 @@ func admDecide(cfg admCfg, r admReq, transport string) admOutcome {
 	}
 	// 6. the application's hook
 	if cfg.hook == 2 {
-		return rej(403, 4, hookText)
+		return rej(403, 4, hookTextFor(r.method, transport))
 	}
 	// 7. protocol revision
 	if r.eio != "4" && !cfg.eio3 {
@@ -128,9 +133,10 @@ func admBody(cfg admCfg, r admReq) vsched.Body {
 		o.SetAllowEIO3(cfg.eio3)
 		armed := false
 		if cfg.hook != 0 {
-			o.SetAllowRequest(func(*types.HttpContext) error {
+			o.SetAllowRequest(func(ctx *types.HttpContext) error {
 				if armed && cfg.hook == 2 {
-					return errors.New(hookText)
+					// the hook's own text differs from request to request
+					return errors.New(hookTextFor(ctx.Method(), ctx.Query().Peek("transport")))
 				}
 				return nil
 			})
